@@ -104,7 +104,7 @@ def _reproduce(p, how):
 def gen_repro(tier, rng):
     for dtype in POOLS:
         for shape in ALL_SHAPES:
-            for _ in range(count(tier, 1, 4)):
+            for _ in range(count(tier, 1, 8)):
                 spec = poly_spec(rng, shape, dtype, retain=rng.random() < 0.3)
                 for how in HOWS:
                     if tier == "thorough" or rng.random() < 0.35:
@@ -204,7 +204,7 @@ def gen_text(tier, rng):
                     for target in TARGETS:
                         if tier == "thorough" or rng.random() < 0.4:
                             yield {"poly": poly_spec(rng, shape, dtype, terms), "options": {"target": target, "writer": writer}}
-                for _ in range(count(tier, 2, 12)):
+                for _ in range(count(tier, 2, 30)):
                     yield {"poly": poly_spec(rng, shape, dtype, terms, retain=rng.random() < 0.2), "options": _io_options(rng, dtype)}
 
 
@@ -242,7 +242,7 @@ def text_roundtrip(inp):
 def gen_plain(tier, rng):
     for shape in [(1,), (3,), (1, 1), (2, 3), (3, 1), (1, 3)]:
         for dtype in ("int64", "float64"):
-            for _ in range(count(tier, 3, 15)):
+            for _ in range(count(tier, 3, 40)):
                 pool = POOLS[dtype]
                 yield {"array": nested(rng, shape, pool), "dtype": dtype, "options": _io_options(rng, dtype)}
 
